@@ -79,7 +79,7 @@ Theorem C13_backend : forall (re_match : str -> str -> bool) (re_replace : str -
               | Rewrite from to => url_host (re_replace from (q_host q) to)
               end in
      r_target (handle re_match re_replace lower fixed dflt cfg q) = Some t /\
-     r_fwd_host (handle re_match re_replace lower fixed dflt cfg q) = Some (if u_preserve u then q_host q else t)) /\
+     r_fwd_host (handle re_match re_replace lower fixed dflt cfg q) = Some (if u_preserve u then preserved_host (q_host q) t else t)) /\
   (r_kind (handle re_match re_replace lower fixed dflt cfg q) <> KForward ->
      r_target (handle re_match re_replace lower fixed dflt cfg q) = None).
 Proof.
